@@ -4,6 +4,8 @@ Cfg(feats, kind, W, B, cost, call) ==
   [feats |-> feats, kind |-> kind, W |-> W, B |-> B, cost |-> cost, call |-> call]
 SingleNames == FeatureNames \ {"prev_hedge", "module_prev"}
 Singles1 == {Cfg(<<f>>, "linear", << <<2>> >>, <<1>>, <<1>>, TRUE) : f \in SingleNames}
+VarSingles == {Cfg(<<f>>, "linear", << <<2>> >>, <<1>>, <<1>>, TRUE) : f \in {"volatility", "variance"}}
+NoVarSingles == Singles1 \ VarSingles
 PairCombos1 == {
   Cfg(<<"moneyness", "time_to_maturity", "volatility", "prev_hedge">>, "linear", << <<1, 2, -1, 1>> >>, <<0>>, <<1>>, TRUE),
   Cfg(<<"max_moneyness", "barrier_up_3", "module_prev">>, "relu", << <<2, 3, -1>> >>, <<0>>, <<1>>, TRUE),
